@@ -1282,6 +1282,7 @@ Definition sd_drain_go (debug : bool) (qi : nat) : nat -> list ent -> MW (list e
 
 Lemma sd_step_op_QueryAll : forall d f hrels, step_op d (OQueryAll f hrels) =
   (rels <- resolveR hrels ;;
+   rels <- resolve_relidx f rels ;;
    qi <- query_open f rels ;;
    cnt <- query_count qi ;;
    es <- sd_drain_go d qi (S cnt) [] ;;
@@ -1315,12 +1316,14 @@ Proof.
     intros s. unfold modify, sd_uf. cbn. repeat split. intros i f0 H. apply sa_nth_error_snoc_old. exact H.
   - (* OQueryAll *)
     apply sd_ufm_bind; [apply sd_ufm_ro, readonly_resolveR|]. intros rl.
+    apply sd_ufm_bind; [apply sd_ufm_ro, readonly_resolve_relidx|]. intros ?rl.
     apply sd_ufm_bind; [apply sd_ufm_fr; intros s; apply query_open_frame|]. intros qi.
     apply sd_ufm_bind; [apply sd_ufm_ro, sd_ro_query_count|]. intros cnt.
     apply sd_ufm_bind; [apply sd_ufm_drain_go|]. intros es.
     apply sd_ufm_bind; [apply sd_ufm_fr; intros s; apply query_close_frame|]. intros _. apply sd_ufm_ro, readonly_ret.
   - (* OQueryOpen *)
     apply sd_ufm_bind; [apply sd_ufm_ro, readonly_resolveR|]. intros rl.
+    apply sd_ufm_bind; [apply sd_ufm_ro, readonly_resolve_relidx|]. intros ?rl.
     apply sd_ufm_bind; [apply sd_ufm_fr; intros s; apply query_open_frame|]. intros qi. apply sd_ufm_ro, readonly_ret.
   - apply sd_ufm_bind; [apply sd_ufm_fr; intros s; apply query_next_frame|]. intros b. apply sd_ufm_ro, readonly_ret.
   - apply sd_ufm_bind; [apply sd_ufm_fr; intros s; apply query_close_frame|]. intros b. apply sd_ufm_ro, readonly_ret.
@@ -1684,11 +1687,13 @@ Lemma sd_qop_QP : forall debug o F, (forall i f, nth_error F i = Some f -> f_cac
 Proof.
   intros debug o F HFP Hq. destruct o; try discriminate Hq; [rewrite sd_step_op_QueryAll | cbn [step_op] ..].
   - apply sd_qp_bind; [apply sd_qp_ro, readonly_resolveR|]. intros rl.
+    apply sd_qp_bind; [apply sd_qp_ro, readonly_resolve_relidx|]. intros ?rl.
     apply sd_qp_bind; [apply sd_qp_open; exact HFP|]. intros qi.
     apply sd_qp_bind; [apply sd_qp_ro, sd_ro_query_count|]. intros cnt.
     apply sd_qp_bind; [apply sd_qp_drain_go|]. intros es.
     apply sd_qp_bind; [apply sd_qp_close|]. intros _. apply sd_qp_ret.
   - apply sd_qp_bind; [apply sd_qp_ro, readonly_resolveR|]. intros rl.
+    apply sd_qp_bind; [apply sd_qp_ro, readonly_resolve_relidx|]. intros ?rl.
     apply sd_qp_bind; [apply sd_qp_open; exact HFP|]. intros qi. apply sd_qp_ret.
   - apply sd_qp_bind; [apply sd_qp_next|]. intros b. apply sd_qp_ret.
   - apply sd_qp_bind; [apply sd_qp_close|]. intros b. apply sd_qp_ret.
